@@ -149,3 +149,88 @@ def flip_if(src: str, qual: str) -> str:
     if not t.n:
         return None
     return ast.unparse(ast.fix_missing_locations(tree))
+
+
+class _TempReturn(ast.NodeTransformer):
+    def __init__(self):
+        self.n = 0
+
+    def _block(self, stmts):
+        out = []
+        for st in stmts:
+            if isinstance(st, ast.Return) and st.value is not None and not isinstance(st.value, (ast.Name, ast.Constant)):
+                self.n += 1
+                name = f"_ret{self.n}"
+                out.append(ast.Assign(targets=[ast.Name(id=name, ctx=ast.Store())], value=st.value, lineno=st.lineno, col_offset=st.col_offset))
+                out.append(ast.Return(value=ast.Name(id=name, ctx=ast.Load()), lineno=st.lineno, col_offset=st.col_offset))
+            else:
+                out.append(st)
+        return out
+
+    def generic_visit(self, node):
+        super().generic_visit(node)
+        if isinstance(node, ast.Lambda):
+            return node
+        for fld in ("body", "orelse", "finalbody"):
+            v = getattr(node, fld, None)
+            if isinstance(v, list) and v and isinstance(v[0], ast.stmt):
+                setattr(node, fld, self._block(v))
+        if isinstance(node, ast.Try):
+            for h in node.handlers:
+                h.body = self._block(h.body)
+        return node
+
+
+def temp_return(src: str, qual: str) -> str:
+    """`return <expr>` -> `_retN = <expr>; return _retN` in function `qual` (not inside nested lambdas)."""
+    tree = ast.parse(src)
+    fn = _func(tree, qual)
+    if fn is None:
+        return None
+    if any(isinstance(d, ast.Name) and d.id in ("njit",) or "jit" in ast.unparse(d) for d in fn.decorator_list):
+        return None
+    t = _TempReturn()
+    t.generic_visit(fn)
+    if not t.n:
+        return None
+    return ast.unparse(ast.fix_missing_locations(tree))
+
+
+class _TempAttrStore(ast.NodeTransformer):
+    def __init__(self):
+        self.n = 0
+
+    def _block(self, stmts):
+        out = []
+        for st in stmts:
+            if isinstance(st, ast.Assign) and len(st.targets) == 1 and isinstance(st.targets[0], ast.Attribute) \
+                    and isinstance(st.targets[0].value, ast.Name) and st.targets[0].value.id == "self" \
+                    and not isinstance(st.value, (ast.Name, ast.Constant, ast.Lambda)):
+                self.n += 1
+                name = f"_val{self.n}"
+                out.append(ast.Assign(targets=[ast.Name(id=name, ctx=ast.Store())], value=st.value, lineno=st.lineno, col_offset=st.col_offset))
+                out.append(ast.Assign(targets=st.targets, value=ast.Name(id=name, ctx=ast.Load()), lineno=st.lineno, col_offset=st.col_offset))
+            else:
+                out.append(st)
+        return out
+
+    def generic_visit(self, node):
+        super().generic_visit(node)
+        for fld in ("body", "orelse", "finalbody"):
+            v = getattr(node, fld, None)
+            if isinstance(v, list) and v and isinstance(v[0], ast.stmt):
+                setattr(node, fld, self._block(v))
+        return node
+
+
+def temp_attr_store(src: str, qual: str) -> str:
+    """`self.x = <expr>` -> `_valN = <expr>; self.x = _valN` in function `qual`."""
+    tree = ast.parse(src)
+    fn = _func(tree, qual)
+    if fn is None:
+        return None
+    t = _TempAttrStore()
+    t.generic_visit(fn)
+    if not t.n:
+        return None
+    return ast.unparse(ast.fix_missing_locations(tree))
